@@ -3,7 +3,7 @@
 E-enum of the complete decision table: trigger T fixed; alarm ACKNOWLEDGED (A), component acknowledgement (C: DTSTAMP,
 or X-MOZ-LASTACK on a Thunderbird component) and snooze (S: X-MOZ-SNOOZE-TIME) each absent or T + delta,
 delta in {-2h, -1s, 0, +1s, +2h}: every weak ordering of the four instants.  x trigger kind {zoned, UTC, floating,
-date} x local time zone {unset, by name, by object} x provider x build path {property setters, add() of typed values,
+date, absolute UTC, absolute floating} x local time zone {unset, by name, by object} x provider x build path {property setters, add() of typed values,
 parsed text} x {1, 2} alarms.  One case = one row over all 6 values of A (so monotonicity in A is checked on the
 observations themselves); monotonicity in C follows from agreement with the (monotone) model in every cell.
 E-hist step per cell: the first alarm's ACKNOWLEDGED is then changed in place to the next value of the menu (or removed) and
@@ -22,14 +22,15 @@ from icalendar.timezone import tzp
 
 UTC = timezone.utc
 DELTAS = (None, timedelta(hours=-2), timedelta(seconds=-1), timedelta(0), timedelta(seconds=1), timedelta(hours=2))
-KINDS = ("zoned", "utc", "floating", "date")
+KINDS = ("zoned", "utc", "floating", "date", "abs-utc", "abs-floating")  # abs-*: absolute TRIGGER (DATE-TIME)
 LOCAL = ("unset", "name", "object")
 PATHS = ("setters", "add", "parsed")
 LOCAL_ZONE = "Europe/Berlin"
 # T as an instant (floating/date interpreted in LOCAL_ZONE, CEST = +2h on that day)
 T_WALL = datetime(2024, 6, 1, 10, 0)
 T_INSTANT = {"zoned": datetime(2024, 6, 1, 8, 0, tzinfo=UTC), "utc": datetime(2024, 6, 1, 10, 0, tzinfo=UTC),
-             "floating": datetime(2024, 6, 1, 8, 0, tzinfo=UTC), "date": datetime(2024, 5, 31, 22, 0, tzinfo=UTC)}
+             "floating": datetime(2024, 6, 1, 8, 0, tzinfo=UTC), "date": datetime(2024, 5, 31, 22, 0, tzinfo=UTC),
+             "abs-utc": datetime(2024, 6, 1, 10, 0, tzinfo=UTC), "abs-floating": datetime(2024, 6, 1, 8, 0, tzinfo=UTC)}
 
 
 def inst(kind, delta, shift=timedelta(0)):
@@ -46,6 +47,8 @@ def build(case, a_delta):
         comp.start = T_WALL.replace(tzinfo=UTC)
     elif kind == "floating":
         comp.start = T_WALL
+    elif kind.startswith("abs"):
+        comp.start = datetime(2024, 5, 1, 9, 0, tzinfo=UTC)  # irrelevant for absolute triggers
     else:
         comp.start = date(2024, 6, 1)
     cval = inst(kind, DELTAS[c_i])
@@ -71,7 +74,11 @@ def build(case, a_delta):
     for i in range(nalarms):
         al = Alarm()
         al.add("action", "DISPLAY")
-        al.TRIGGER = timedelta(0) if i == 0 else (timedelta(days=-1) if kind == "date" else timedelta(hours=-1))
+        if kind.startswith("abs"):
+            base = T_WALL if kind == "abs-floating" else T_WALL.replace(tzinfo=UTC)
+            al.TRIGGER = base if i == 0 else base - timedelta(hours=1)
+        else:
+            al.TRIGGER = timedelta(0) if i == 0 else (timedelta(days=-1) if kind == "date" else timedelta(hours=-1))
         ack = inst(kind, a_delta) if i == 0 else inst(kind, DELTAS[(c_i + 1) % 6], timedelta(days=-1) if kind == "date" else timedelta(hours=-1))
         put(al, "ACKNOWLEDGED", "ACKNOWLEDGED", ack)
         comp.add_component(al)
@@ -103,7 +110,7 @@ def run_case(case, only_a=None):
     fails = []
     row = []
     n = 0
-    needs_local = kind in ("floating", "date")
+    needs_local = kind in ("floating", "date", "abs-floating")
     for a_i, a_delta in enumerate(DELTAS):
         if only_a is not None and a_i != only_a:
             continue
@@ -233,7 +240,7 @@ def replay(case):
 
 def run(ctx):
     ctx.rule = ("E-enum of the decision table: A, C, S each absent or T+{-2h,-1s,0,+1s,+2h} (6x6x6, every weak ordering incl. "
-                "equalities; S only on Thunderbird-marked components) x trigger kind {zoned, UTC, floating, date} x local zone "
+                "equalities; S only on Thunderbird-marked components) x trigger kind {zoned, UTC, floating, date, absolute UTC, absolute floating} x local zone "
                 "{unset, by name, by object} x provider x build path {setters, add typed, parsed} x {1,2} alarms. One case = a "
                 "row over all 6 values of A. non-trivial = every row.")
     ctx.bounds = {"deltas": [str(d) for d in DELTAS], "kinds": KINDS, "local": LOCAL, "paths": PATHS}
